@@ -283,8 +283,14 @@ def py_record(emu, bus, pc: int, opcode: int, ln: int, err) -> list:
             1 if emu.state.halted else 0, sorted([a, v] for a, v in bus.writes.items()), err]
 
 
-def py_run(emu, bus, n: int, lo: int = CODE_LO, hi: int = CODE_HI, stop_at=None) -> List[list]:
-    """`stop_at`: opcodes (first byte after an optional PRE) that end the run before they execute."""
+BLOCK_OPS = frozenset([0x54, 0x55, 0x5C, 0x5D, 0xC4, 0xC5, 0xD4, 0xD5, 0xEC, 0xFC, 0xCB, 0xCF, 0xD3, 0xDB, 0xE3, 0xEB,
+                       0x56, 0x5E, 0xC3, 0xF3, 0xFB])
+
+
+def py_run(emu, bus, n: int, lo: int = CODE_LO, hi: int = CODE_HI, stop_at=None, block_limit=None) -> List[list]:
+    """`stop_at`: opcodes (first byte after an optional PRE) that end the run before they execute;
+    `block_limit`: a block instruction about to run with I above this (or I = 0, i.e. 65536) ends the run
+    too (the Python core needs milliseconds per iteration)."""
     from sc62015.pysc62015.emulator import RegisterName as R
     out: List[list] = []
     for _ in range(n):
@@ -297,6 +303,10 @@ def py_run(emu, bus, n: int, lo: int = CODE_LO, hi: int = CODE_HI, stop_at=None)
             first = fetched[1] if fetched[0] in PRES else fetched[0]
             if first in stop_at:
                 break
+            if block_limit is not None and first in BLOCK_OPS:
+                iv = emu.regs.get(R.I)
+                if iv > block_limit:
+                    break
         bus.writes = {}
         try:
             info = emu.execute_instruction(pc)
